@@ -186,4 +186,60 @@ theorem crc8_division (bytes : List Nat) (hb : AllBytes bytes) :
       clmul_add, ← crcByte_xor]
     ac_rfl
 
+/-! ### the remainder is unique -/
+
+theorem xor_cancel_right (a b : Nat) : (a ^^^ b) ^^^ b = a := by
+  rw [Nat.xor_assoc, Nat.xor_self, Nat.xor_zero]
+
+theorem eq_of_xor_eq_zero {a b : Nat} (h : a ^^^ b = 0) : a = b := by
+  have := xor_cancel_right a b
+  rw [h, Nat.zero_xor] at this
+  exact this.symm
+
+/-- A non-zero multiple of the generator has degree at least 8. -/
+theorem clmul_crcG_ge : ∀ n q, q ≤ n → q ≠ 0 → 256 ≤ clmul q crcG := by
+  intro n
+  induction n with
+  | zero => intro q h h0; omega
+  | succ n ih =>
+    intro q hq h0
+    rw [clmul_rec]
+    by_cases h1 : q / 2 = 0
+    · have hq1 : q = 1 := by omega
+      subst hq1
+      simp [clmul_zero, crcG, Gen.Eeprom.CRC_WIDTH, Gen.Eeprom.CRC_POLY]
+    · have hrec := ih (q / 2) (by omega) h1
+      have hdiv : ((if q % 2 = 1 then crcG else 0) ^^^ 2 * clmul (q / 2) crcG) / 2 ^ 9
+          = (if q % 2 = 1 then crcG else 0) / 2 ^ 9 ^^^ (2 * clmul (q / 2) crcG) / 2 ^ 9 := Nat.xor_div_two_pow
+      have hb : (if q % 2 = 1 then crcG else 0) / 2 ^ 9 = 0 := by
+        split <;> simp [crcG, Gen.Eeprom.CRC_WIDTH, Gen.Eeprom.CRC_POLY]
+      rw [hb, Nat.zero_xor] at hdiv
+      have : 1 ≤ (2 * clmul (q / 2) crcG) / 2 ^ 9 := by
+        apply (Nat.le_div_iff_mul_le (by decide)).2; omega
+      have h512 : 1 ≤ ((if q % 2 = 1 then crcG else 0) ^^^ 2 * clmul (q / 2) crcG) / 2 ^ 9 := by omega
+      have := (Nat.le_div_iff_mul_le (by decide : 0 < 2 ^ 9)).1 h512
+      omega
+
+/-- Two decompositions `q ⊗ G + r` of the same polynomial with `deg r < 8` have the same remainder: the value
+    `crc8` computes is THE remainder of the division. -/
+theorem crc_remainder_unique (A q1 r1 q2 r2 : Nat) (h1 : A = clmul q1 crcG ^^^ r1) (h2 : A = clmul q2 crcG ^^^ r2)
+    (hr1 : r1 < 256) (hr2 : r2 < 256) : r1 = r2 := by
+  have hx : clmul (q1 ^^^ q2) crcG = r1 ^^^ r2 := by
+    rw [clmul_add]
+    have e : clmul q1 crcG ^^^ r1 = clmul q2 crcG ^^^ r2 := h1.symm.trans h2
+    have : clmul q1 crcG ^^^ r1 ^^^ r1 ^^^ clmul q2 crcG = clmul q2 crcG ^^^ r2 ^^^ r1 ^^^ clmul q2 crcG := by
+      rw [e]
+    rw [xor_cancel_right] at this
+    rw [this]
+    rw [show clmul q2 crcG ^^^ r2 ^^^ r1 ^^^ clmul q2 crcG = (r2 ^^^ r1) ^^^ (clmul q2 crcG ^^^ clmul q2 crcG) by ac_rfl,
+      Nat.xor_self, Nat.xor_zero, Nat.xor_comm]
+  have hlt : r1 ^^^ r2 < 256 := @Nat.xor_lt_two_pow _ _ 8 hr1 hr2
+  have hq : q1 ^^^ q2 = 0 := by
+    by_cases h0 : q1 ^^^ q2 = 0
+    · exact h0
+    · have := clmul_crcG_ge _ _ (Nat.le_refl _) h0
+      omega
+  rw [hq, clmul_zero] at hx
+  exact eq_of_xor_eq_zero hx.symm
+
 end Ec.Eeprom
